@@ -323,6 +323,20 @@ pub fn generate(seed: u64, thorough: bool, sink: &mut Sink) -> Vec<String> {
       if let Ok(b) = pp.to_bytes() { emitted.push(b); }
     } }
   }
+  // every header field of a few emitted files set to each of seven hostile values in turn (checksum recomputed): zero,
+  // one, the field's maximum, the file length, the length without the trailer, one more and one less than it was
+  for file in emitted.iter().filter(|f| f.len() > 200).take(if thorough { 12 } else { 3 }) {
+    let body = &file[..file.len() - 4];
+    for (o, sz) in fields.iter() {
+      let max = if *sz == 8 { u64::MAX } else { (1u64 << (8 * sz)) - 1 };
+      let old = { let mut v = 0u64; for i in 0..*sz { v |= (body[o + i] as u64) << (8 * i); } v };
+      for v in [0u64, 1, max, file.len() as u64, file.len() as u64 - 4, old.wrapping_add(1), old.wrapping_sub(1)] {
+        let v = v & max; if v == old { continue; }
+        let mut b = body.to_vec(); for i in 0..*sz { b[o + i] = (v >> (8 * i)) as u8; }
+        cases.push(format!("load\thostile-header\t{}", hexb(&with_crc(b)))); sink.hit("load:hostile-header-systematic");
+      }
+    }
+  }
   for (fi, file) in emitted.iter().enumerate() {
     cases.push(format!("load\temitted\t{}", hexb(file))); sink.hit("load:emitted");
     let body = &file[..file.len() - 4];
